@@ -61,10 +61,11 @@ theorem iter_add {σ : Type} (h : Handler σ) (n m : Nat) (w : World σ) :
 /-! ### the same for a global step that changes from step to step (per-simulant clocks) -/
 
 /-- shape facts read from interface/interactive.py on this run: `run_until` loops `while time < end`,
-`take_steps` forwards its `step_size` argument unchanged, `step` restores the old size only when one was given -/
+`take_steps` forwards its `step_size` argument unchanged, `step` restores the old size only when one was given
+and the clock has not just recomputed its own step (per-simulant clocks, non-empty population: F33) -/
 theorem gen_interactive_tables :
     Viv.Gen.runUntilLoopCmp = "Lt" ∧ Viv.Gen.takeStepsForwardsStepSize = true ∧
-    Viv.Gen.interactiveStepRestoresOnlyWhenGiven = true := by decide
+    Viv.Gen.interactiveStepRestoreGuard = "givenAndNotRecomputed" := by decide
 
 /-- `take_steps(n)` without a step size is `n` engine steps, whatever the step function does to the global step -/
 theorem takeSteps_none_eq_iter {W : Type} (S : VSys W) (n : Nat) (w : W) :
@@ -113,7 +114,8 @@ theorem vrun_stops_at_end {W : Type} (S : VSys W) (stop : Int) (fuel : Nat) (w :
 
 /-- a clock whose global step is 1 at time 0 and 3 afterwards -/
 def varying : VSys (Int × Int) :=
-  { step := fun w => (w.1 + w.2, 3), time := fun w => w.1, getStep := fun w => w.2, setStep := fun h w => (w.1, h) }
+  { step := fun w => (w.1 + w.2, 3), time := fun w => w.1, getStep := fun w => w.2, setStep := fun h w => (w.1, h),
+    recomputed := fun _ => true }
 
 /-- witness for the repaired defect F21: a precomputed step count overshoots the end when the global step grows
 (`run()` stops at time 4 after 2 steps; `take_steps(ceil(4/1))` runs on to time 10) -/
@@ -123,7 +125,26 @@ theorem precomputed_count_overshoots :
 /-- witness for the stepping-API channel: `take_steps` called with the CURRENT step size (instead of none)
 freezes the global step – the world differs from `n` engine steps as soon as the step changes -/
 theorem explicit_current_step_freezes :
-    varying.takeSteps (some (varying.getStep (0, 1))) 2 (0, 1) = (2, 1) ∧ varying.iter 2 (0, 1) = (4, 3) := by decide
+    varying.takeSteps (some (varying.getStep (0, 1))) 2 (0, 1) = (2, 3) ∧ varying.iter 2 (0, 1) = (4, 3) := by decide
+
+/-- the repair of F33: after `step(h)` the clock keeps the step it has just recomputed (per-simulant clocks, non-empty
+population), so the next default step starts from the recomputed step, not from a stale one -/
+theorem explicit_step_keeps_recomputed {W : Type} (S : VSys W) (h : Int) (w : W)
+    (hr : S.recomputed (S.step (S.setStep h w)) = true) :
+    S.istep (some h) w = S.step (S.setStep h w) := by
+  simp only [VSys.istep, hr, if_true]
+
+/-- … and where the clock does not recompute (no per-simulant clocks, or nobody there) the override is undone: the
+step size afterwards is the one in force before, for any lawful `getStep`/`setStep` -/
+theorem explicit_step_restored_otherwise {W : Type} (S : VSys W) (h : Int) (w : W)
+    (hr : S.recomputed (S.step (S.setStep h w)) = false) (law : ∀ x v, S.getStep (S.setStep x v) = x) :
+    S.getStep (S.istep (some h) w) = S.getStep w := by
+  simp only [VSys.istep, hr]; simp [law]
+
+/-- witness for F33 as it was: restoring unconditionally leaves the stale step 1 where the clock had computed 3 -/
+theorem stale_restore_witness :
+    varying.setStep (varying.getStep (0, 1)) (varying.step (varying.setStep 1 (0, 1))) = (1, 1) ∧
+    varying.istep (some 1) (0, 1) = (1, 3) := by decide
 
 /-! ### the process-global context counter enters the name only -/
 
